@@ -6,6 +6,7 @@ package main
 import (
 	"fmt"
 	"math"
+	"strings"
 	"time"
 
 	"github.com/form3tech-oss/f1/v2/internal/trigger/api"
@@ -80,9 +81,22 @@ var builders = []builder{
 	{"ramp 0/1s-60/1s over 6s", func(j float64) (*api.Rates, error) {
 		return ramp.CalculateRampRate("0/1s", "60/1s", "none", 6*time.Second, j)
 	}},
+	// a flat bell whose ticks 6 s .. 12 s (offset below) cross the end of a repetition with plenty still to request:
+	// what is owed at the last tick of a window is carried into the next
+	{"gaussian 6000 per 10s, peak 5s, sigma 1h, every 1s, ticks from +6s across the end of the window", func(j float64) (*api.Rates, error) {
+		return gaussian.CalculateGaussianRate(6000, j, 10*time.Second, time.Second, 5*time.Second, time.Hour, "", "none")
+	}},
 	{"gaussian 5000 per 10s, peak 5s, sigma 2s, every 1s", func(j float64) (*api.Rates, error) {
 		return gaussian.CalculateGaussianRate(5000, j, 10*time.Second, time.Second, 5*time.Second, 2*time.Second, "", "none")
 	}},
+}
+
+// offsetOf: where a builder's first tick lies relative to the (window-aligned) origin
+func offsetOf(name string) time.Duration {
+	if strings.Contains(name, "ticks from +6s") {
+		return 6 * time.Second
+	}
+	return 0
 }
 
 func builderSuite(length int) hlib.Suite {
@@ -104,7 +118,7 @@ func builderSuite(length int) hlib.Suite {
 				ref := make([]int, length)
 				rmax := 0
 				for k := range ref {
-					ref[k] = base.Rate(now.Add(time.Duration(k) * base.IterationDuration))
+					ref[k] = base.Rate(now.Add(offsetOf(b.name) + time.Duration(k)*base.IterationDuration))
 					rmax = max(rmax, ref[k])
 				}
 				codes := total
@@ -120,7 +134,7 @@ func builderSuite(length int) hlib.Suite {
 						panic(err)
 					}
 					input := fmt.Sprintf("builder=%s jitter=%v random-script=%d (base %d digits, u in %v)", b.name, j, code, len(uAlpha), uAlpha)
-					runCase(r, j, length, code, func(k int) int { return ref[k] }, func(k int) int { return rs.Rate(now.Add(time.Duration(k) * rs.IterationDuration)) }, rmax, nil, input)
+					runCase(r, j, length, code, func(k int) int { return ref[k] }, func(k int) int { return rs.Rate(now.Add(offsetOf(b.name) + time.Duration(k)*rs.IterationDuration)) }, rmax, nil, input)
 				}
 				r.Distinct(fmt.Sprintf("%v %s", j, b.name))
 			}
